@@ -69,6 +69,28 @@ example : (execAll false false true (progOf .current .fileInFileOut) RState.init
     (execAll false false true (progOf .patched .fileInFileOut) RState.init).length = 179 := by
   decide +kernel
 
+/-- T-C20.6b  (a sound finite check for ANY program)  For every program `P` over the resource calls of
+solver.py — the current functions, the patch, or any later rewrite that the translator can express —
+if the finite enumeration of its paths shows no stray file, then NO fault schedule and no solver
+behaviour makes a run of `P` leave a temporary file behind whose removal the OS did not refuse.
+(`patched_leak_free` is this theorem plus `decide`; for the current source the check evaluates to
+`false`, see `current_leaks`.) -/
+theorem leak_check_sound (P : RProg)
+    (hcheck : forAllPaths P (fun _ _ _ p => p.left.all p.2.1.refused.contains) = true)
+    (rmIn rmOut hasFile : Bool) (sched : List Fault) :
+    ∀ p ∈ (exec rmIn rmOut hasFile P sched RState.init).2.1.created.filter
+            (exec rmIn rmOut hasFile P sched RState.init).2.1.files.contains,
+      p ∈ (exec rmIn rmOut hasFile P sched RState.init).2.1.refused := by
+  obtain ⟨path, _, hp⟩ := run_satisfies hcheck rmIn rmOut hasFile sched
+  intro p hpl
+  simp only [Path.left, List.all_eq_true] at hp
+  simpa using hp p hpl
+
+/-- non-vacuity: the check accepts the patched minisat function and rejects the current one -/
+example : forAllPaths (progOf .patched .fileInFileOut) (fun _ _ _ p => p.left.all p.2.1.refused.contains) = true ∧
+    forAllPaths (progOf .current .fileInFileOut) (fun _ _ _ p => p.left.all p.2.1.refused.contains) = false := by
+  decide +kernel
+
 /-! ### vocabulary -/
 
 /-- a solver that prints a satisfying assignment / writes `SAT 1 -2 0`, exit status 10, and leaves the
